@@ -40,7 +40,8 @@ CHECKS["C03"] = dict(
          "pack(unpack(b))=b, unpack(pack(v))=v for in-range v - complete over byte values, array lengths 0..3 (quick) / 0..6 (thorough). "
          "The real bits.unpack/bits.pack wrappers are executed symbolically with unbounded array and buffer sizes for every "
          "(nbits, bitorder, dtype, buffer) configuration: ValueError exactly for invalid arguments, dispatch to the kernel named by depth and order, "
-         "caller buffer vs allocated buffer. The interpreter is validated on every run against the compiled kernels on all 256 byte values.",
+         "caller buffer vs allocated buffer; output buffers hold arbitrary stale bytes before the call; constant lookup tables are if-then-else chains with unconstrained "
+         "content outside the table. The interpreter is validated on every run against the compiled kernels on all 256 byte values.",
     note="Trusted: numba lowers the typed IR it reports. Kernel array lengths above the bound are outside the claim.",
     design="DESIGN.md section 4 (C03)")
 
@@ -50,8 +51,9 @@ CHECKS["C19"] = dict(
     text="Every parallel=True kernel in scope is captured from numba's pipeline; its prange body is executed for two arbitrary distinct "
          "iteration indices with all size arguments symbolic (within their machine width) and inner loops summarised by one arbitrary iteration; "
          "all array accesses are logged as index terms and z3 proves that no write of one iteration can alias a read or write of the other "
-         "(plus: scalars assigned in the body are iteration-local). A model gives concrete sizes and two iteration numbers, which are replayed "
-         "on the kernel's real Python body with recording arrays to exhibit the shared element.",
+         "(plus: scalars assigned in the body are iteration-local). Loads from arrays no iteration writes are the same function of the index in both iterations; "
+         "sub-array views, symbolic modulo and the thread-pool size (>= 2) are modelled. A model gives concrete sizes, array contents, pool size and two iteration "
+         "numbers, which are replayed on the kernel's real Python body with recording arrays (views included) to exhibit the shared element.",
     note="Assumes caller arrays do not alias and the listed call-site preconditions (0<=delay<=maxdelay, chan_to_sub<nsubs); numba's scheduler "
          "and scalar privatisation are trusted; simulate_ism is outside the property.",
     design="DESIGN.md section 4 (C19)")
@@ -92,7 +94,8 @@ CHECKS["C08"] = dict(
          "labels (exact arithmetic on the double values, several channelisations incl. -0.1 and -1/3 MHz) against the centres of the input "
          "channels copied/averaged. read_block(fch1=label_k): the real bytecode runs with an IEEE-754 double label fch1_0+k*foff, k a symbolic "
          "16-bit integer <= 4096; z3 proves in the FP theory that the index expression returns k, then the slice and header are decided over "
-         "the integers.",
+         "the integers. mjd_after_nsamps/obs_time over an astropy Time contract (tstart + n*tsamp/86400); headers of containers derived from containers "
+         "(TimeSeries.downsample/pad, FilterbankBlock.get_tim/dedisperse): tsamp*factor, nsamples = data length, dm = the DM applied to the block.",
     note="mjd_after_nsamps is uninterpreted (astropy Time accuracy outside the claim); channelisations from a stated list; float32 label arrays outside.",
     design="DESIGN.md section 4 (C08)")
 
@@ -102,7 +105,8 @@ CHECKS["C20"] = dict(
     text="For every streaming writer the recorded sequence of raw writes is checked on every path: the first write is the complete encoded header, "
          "all later writes append whole output samples in time order, no seek or rewrite; the writer object is the unbuffered io.FileIO. For every "
          "truncation length L >= header length (unbounded integer) the real parse_header arithmetic infers k = floor(8(L-hdr)/nbits/nchans) and the "
-         "real read_block(0,k) on the surviving file returns exactly the first k samples.",
+         "real read_block(0,k) on the surviving file returns exactly the first k samples. Replays also compare every snapshot with the file as left when the call returns "
+         "(nothing is patched afterwards) and the on-disk size after every cwrite (nothing is held back).",
     note="A crash inside a single OS write and file-system durability are outside the claim. Header content is C05.",
     design="DESIGN.md section 4 (C20)")
 
@@ -127,7 +131,8 @@ CHECKS["C09"] = dict(
          "symbolic delay table and must output x[c,(t+delay_c)] (cyclic for rotations, windowed for the valid variants) over the length its header "
          "declares; read_dedisp_block runs on a symbolic file for small concrete shapes with symbolic samples; the streamed path is C06. The delay "
          "law itself: the real compute_dmdelays is executed over exact reals (zero at the reference, odd in DM, monotone in frequency, within half "
-         "a sample of the formula) and Header.get_dmdelays' reference selection is checked.",
+         "a sample of the documented 4.148808e3*DM*(f^-2 - fref^-2)/tsamp) and Header.get_dmdelays hands the right reference frequency (ch1/max/min/band centre/number), "
+         "channel frequencies and sampling time to it for symbolic fch1/foff of either sign (the real band-geometry properties run).",
     note="Shapes up to 3x3/2x4, shifts within +-(ncols+1); float32 evaluation of the delay formula near rounding boundaries is outside the claim; "
          "f^-2 is abstracted by an order-reversing positive real.",
     design="DESIGN.md section 4 (C09)")
@@ -152,7 +157,8 @@ CHECKS["C17"] = dict(
          "target) and update_period(p) for p in a small alphabet, the real methods run symbolically on a cube whose profiles are rotation "
          "offsets; on every path z3 proves that each profile's rotation equals that of a fresh cube re-tuned once to the final targets and the "
          "independently specified shift of the final DM/period relative to the folding values (so repeats are no-ops and returning to the "
-         "folding values restores the cube), and that dm/period report the last targets.",
+         "folding values restores the cube), and that dm/period report the last targets; histories over two nearby periods on a four-sub-integration cube cover "
+         "increments in which only a middle sub-integration moves.",
     note="Exact arithmetic with half-even rounding; DM targets in [0,1000]; absolute-shift obligation excludes a 1e-6 neighbourhood of rounding "
          "boundaries; period targets from an alphabet; profile contents are not modelled (updates only call np.roll).",
     design="DESIGN.md section 4 (C17)")
@@ -163,8 +169,8 @@ CHECKS["C18"] = dict(
     text="read_block: for every (start, nsamps) the rows requested exist, are consecutive, the slice is exactly [start, start+nsamps), out-of-range "
          "requests raise ValueError, in-range ones never do, channels come out descending. read_plan: blocks hold exactly the reported samples "
          "and tile the request as in C01 (same obligations). Value pipeline: ((raw - zero_off)*scale + offset)*weight and the polarisation "
-         "selection are proved for symbolic raw values/scales/offsets/weights at a small shape. Streaming reductions then follow from C06, which "
-         "only depends on the read_plan contract.",
+         "selection are proved for symbolic raw values/scales/offsets/weights at a small shape (replayed on a copy of the shipped file with rewritten weight/scale/offset "
+         "columns; ascending-frequency behaviour on a twin with reversed DAT_FREQ). Streaming reductions then follow from C06, which only depends on the read_plan contract.",
     note="astropy.io.fits is FFI: row access is a contract stub; header value types are outside; replay only at the shape of tests/data/parkes_4bit.sf; "
          "single-polarisation layouts are not claimed.",
     design="DESIGN.md section 4 (C18)")
@@ -177,7 +183,8 @@ CHECKS["C14"] = dict(
          "are decided from the typed IR. The real running_filter runs on numpy object arrays through numpy's own symmetric pad for every "
          "(n, window) up to the bound, both methods: each output equals the mean/median of the centred window over the symmetrically reflected "
          "series and the length is preserved; the real 1-D/2-D/flat decimators (mean via the interpreted kernels, median via numpy reshape) give "
-         "the group statistic of every full group on both axes; deredden is input minus filter; FilterbankBlock.downsample's header follows the factors.",
+         "the group statistic of every full group on both axes (also for arrays declared uint8: no wrap, no truncation in the 2-D non-flat path; a valid factor is never refused); "
+         "deredden is input minus filter; FilterbankBlock.downsample's header follows the factors.",
     note="bottleneck's moving windows and the median are trusted stubs (median = uninterpreted function of its ordered window); exact arithmetic; "
          "running_filter_fast is outside the claim.",
     design="DESIGN.md section 4 (C14)")
@@ -189,7 +196,8 @@ CHECKS["C04"] = dict(
          "refused before any data byte, or bytes*8 = samples*nchans*nbits, the item type (or packing) is the declared depth's, representable "
          "values are stored unchanged in order and the reader's inferred sample count equals the samples written. .tim/.dat/.spec/.fft: the "
          "real from_* reader run on the bytes the real to_* writer produced returns the same number of samples/bins with identical values "
-         "(no header byte read as a sample). to_file writes a 32-bit time-major block after one header; requantize writes at nbits_out.",
+         "(no header byte read as a sample). to_file writes a 32-bit time-major block after one header; requantize writes at nbits_out. Packed writes use the bit "
+         "order the readers unpack that depth with; every scenario is preceded by an unrelated depth-changing write (process-level state must not leak).",
     note="np.tofile/fromfile and encode_header are trusted stubs; .inf text and astropy formatting outside; values assumed representable at the declared depth.",
     design="DESIGN.md section 4 (C04)")
 
